@@ -59,20 +59,24 @@ _l("C08", "4 C08", "Sync.tla (TLC, with fairness) proves <>(synced = Tip) and no
    "detectors); surviving traces are validated by TLC (garbage is inert).", technique="TLA+ spec (Sync.tla liveness, LedgerBlock totality) + TLC + adversarial scenario replay with wedge/crash detection")
 _l("C11", "4 C11", "The pegnet grader module is the oracle for OPR winners, Ledger.tla (SprEligible/SprWinnerIdx) decides staking winners from committed balances; "
    "OPR/SPR sets of every class for graders V1..V5 / S1..S3 and valid / invalid FCT burn shapes are run on the real node; TLC checks reward and burn deltas, "
-   "pn_winners rows, and that nothing else is credited.")
+   "pn_winners rows, and that nothing else is credited (payout addresses of ALL staking records are attributed); every 3rd (thorough: every) upstream request of one chain "
+   "fails once and winners / rewards must equal the fault-free run's. Configuration conformance (Config.tla) covers the default activation heights and issuance constants.")
 _l("C12", "4 C12", "RatesOf (Ledger.tla) states the combination rule per era (1%/0.1%, 10%, 25% bands; PEG zero / equation / floating); every winner combination and "
    "band position is run on the real node and pn_rate compared; unrated blocks must execute no pending conversion (also ConvTiming in MC_Ledger); a per-height "
-   "digest of all earlier rates is checked after every block (immutability).")
+   "digest of all earlier rates is checked after every block (immutability); every 3rd (thorough: every) upstream request of one chain fails once and the rate / grade / "
+   "winner tables must equal the fault-free run's.")
 _l("C13", "4 C13", "MC_Ledger proves AdmissionOK; conversions between all ordered pairs of asset classes at every height around each activation (live and all-era "
-   "schedules), funded and unfunded, with zero rates, are decided by TLC from the observed pre-state at the execution height.")
+   "schedules), funded and unfunded, with zero rates, unavailable averages (also with the API's rich-list methods called between blocks), every small-cap ticker and "
+   "batches mixing a PEG destination with other transactions, are decided by TLC from the observed pre-state at the execution height.")
 
 _l("C14", "4 C14", "StakeOf / StakePayouts (Ledger.tla) state the rule: stake from MIN(previous, current snapshot) of non-PEG assets in USD, floor shares of "
    "4,500 PEG x 144, dust to a top staker, full stake when below the cap; chains crossing 144 / 288 (/432) with movements between snapshots, late funds, new "
    "addresses, ties, totals below / above the cap, a zero-rate asset, a snapshot height without rates, before and after 2.0.2 are run on the real node; TLC "
-   "compares every PEG delta and both snapshot tables.")
+   "compares every PEG delta and both snapshot tables; one chain holds all 61 non-PEG tickers at distinct rates on a database whose balance table is migrated at start-up.")
 _l("C15", "4 C15", "NullifyBurn / MintStage / DevStage (Ledger.tla) state each scheduled event; a sweep of six activation placements relative to the 144-block "
    "cadence with funded special addresses is run on the real node; TLC compares the balance of every special address after every block, so a payout or "
-   "adjustment at a wrong height, for a wrong amount, repeated or missing is an issue.")
+   "adjustment at a wrong height, for a wrong amount, repeated or missing is an issue; the scenario holds the key of the network's mint address; every statement of the mint and "
+   "mint-burn block fails once; Config.tla covers the default heights, the developer table and the 2.0.4 supply table.")
 _l("C16", "4 C16", "PegStage (LedgerBlock.tla): requested amounts, floor shares of the bank, dust to the highest request (lowest txid among ties), refunds at spot "
    "rates, per-height sets before V4 and one pooled set with a bank row after; legacy-era chains with totals below / above the bank, ties and requests spread "
    "over unrated blocks are run on the real node; TLC compares PEG / source deltas, recorded yield + refund and the bank row.")
@@ -80,7 +84,7 @@ _l("C16", "4 C16", "PegStage (LedgerBlock.tla): requested amounts, floor shares 
 _l("C17", "4 C17", "MC_Ledger proves ExecutedIffRel / PendingIffHeld; on real runs TLC checks after every block that statuses tell the truth (executed iff applied with "
    "the credited amounts, negative iff rejected without effect, pending only while it can still be considered) and that replaying the block's history rows plus "
    "the scheduled adjustments reproduces all balances; the real API handlers are queried over HTTP through all pages by entry hash, address and height: every "
-   "recorded action exactly once, counts / offsets consistent, status and balances equal to the ledger.",
+   "recorded action exactly once with the recorded amounts and outputs, counts / offsets consistent, status and balances equal to the ledger.",
    technique="TLA+ spec (LedgerBlock + history replay + query model in Trace_Ledger) + TLC trace validation incl. real API answers")
 CHECKS["C20"] = dict(cat="model_checking", ref="4 C20", engine="tlc-case-enumeration",
     text="Codec.tla transcribes the decimal-amount parser and the canonical FAT-2 batch grammar as pure operators; TLC enumerates the case menus (all strings over "
